@@ -1,6 +1,8 @@
 package main
 
 import (
+	"context"
+	"sync"
 	"flag"
 	"fmt"
 	"go/types"
@@ -133,6 +135,8 @@ func main() {
 		cmdVerify(os.Args[2:])
 	case "check":
 		cmdCheck(os.Args[2:])
+	case "sweep":
+		cmdSweep(os.Args[2:])
 	default:
 		fmt.Println("unknown command", os.Args[1])
 		os.Exit(2)
@@ -179,6 +183,7 @@ func cmdVerify(args []string) {
 		all = append(all, r.VCs...)
 	}
 	prelude := w.smt.Prelude()
+	altWorld = w
 	solveAll(all, prelude, "/verif/out/smt", *timeout, 0, 16, false)
 	nOK, nBad := 0, 0
 	for _, r := range w.res {
@@ -214,3 +219,124 @@ func cmdVerify(args []string) {
 	}
 }
 
+
+// cmdSweep: zero-annotation safety sweep.  Every function without a contract is verified
+// against the empty contract (safety obligations only); the ones that discharge completely
+// are printed as contract stubs for the C03 section of the contracts file.
+func cmdSweep(args []string) {
+	w, err := loadWorld("/repo")
+	if err != nil {
+		fmt.Println("LOAD ERROR:", err)
+		os.Exit(2)
+	}
+	have := map[string]bool{}
+	for _, fc := range w.prog.C.Funcs {
+		have[fc.Name] = true
+	}
+	var keys []string
+	for k := range w.prog.Funcs {
+		if !have[k] && !strings.HasPrefix(k, "Test") && !strings.HasPrefix(k, "Benchmark") {
+			keys = append(keys, k)
+		}
+	}
+	sort.Strings(keys)
+	type item struct {
+		key string
+		res []*FuncResult
+	}
+	var items []item
+	var all []*VC
+	for _, k := range keys {
+		fd := w.prog.Funcs[k]
+		if strings.HasSuffix(w.prog.Fset.Position(fd.Pos()).Filename, "_test.go") {
+			continue
+		}
+		fc := &FuncContract{Name: k, Loops: map[string]*LoopContract{}, Tier: "A", Arith: "wrap", PanicFree: true, Props: []string{"C03"}}
+		it := item{key: k}
+		func() {
+			defer func() {
+				if r := recover(); r != nil {
+					fmt.Printf("// %s: generator panic: %v\n", k, r)
+					it.res = nil
+				}
+			}()
+			for _, inst := range w.instantiations(k) {
+				r := VerifyFunc(w.prog, w.smt, w.eff, k, fc, inst, k+instLabel(inst))
+				it.res = append(it.res, r)
+				all = append(all, r.VCs...)
+			}
+		}()
+		items = append(items, it)
+	}
+	_ = all
+	// one batched query per function: all safety obligations at once
+	os.MkdirAll("/verif/out/sweep", 0o755)
+	type job struct {
+		it  *item
+		ok  bool
+		n   int
+		why string
+	}
+	jobs := make([]*job, len(items))
+	var wg sync.WaitGroup
+	sem := make(chan bool, 16)
+	for i := range items {
+		j := &job{it: &items[i], ok: len(items[i].res) > 0}
+		jobs[i] = j
+		for _, r := range j.it.res {
+			if len(r.Outside) > 0 {
+				j.ok = false
+				j.why = "outside-subset: " + r.Outside[0]
+			}
+		}
+		if !j.ok {
+			continue
+		}
+		wg.Add(1)
+		go func(j *job) {
+			defer wg.Done()
+			sem <- true
+			defer func() { <-sem }()
+			for ri, r := range j.it.res {
+				var vcs []*VC
+				for _, vc := range r.VCs {
+					if !vc.MustFail {
+						vcs = append(vcs, vc)
+					}
+				}
+				j.n += len(vcs)
+				if len(vcs) == 0 {
+					continue
+				}
+				var body strings.Builder
+				fv := vcs[0].fv
+				for _, d := range fv.decls {
+					body.WriteString(d + "\n")
+				}
+				var alts []string
+				for _, vc := range vcs {
+					alts = append(alts, "(and "+strings.Join(append(append([]string{"true"}, vc.Hyps...), not(vc.Goal)), " ")+")")
+				}
+				body.WriteString("(assert (or " + strings.Join(alts, "\n  ") + "))\n(check-sat)\n")
+				smtMu.RLock()
+				text := fv.smt.PreludeFor(body.String()) + body.String()
+				smtMu.RUnlock()
+				file := fmt.Sprintf("/verif/out/sweep/%s_%d.smt2", sanitizeFile(j.it.key), ri)
+				os.WriteFile(file, []byte(text), 0o644)
+				res := runSolver(context.Background(), solvers[0], file, 10, 0)
+				if res.status != "unsat" {
+					j.ok = false
+					j.why = "batched safety query: " + res.status
+				}
+			}
+		}(j)
+	}
+	wg.Wait()
+	for _, j := range jobs {
+		if j.ok {
+			fmt.Printf("//@ func %s\n//@   props C03\n//@   panicfree\n\n", j.it.key)
+		} else {
+			fmt.Printf("// not safe without a contract: %s (%s)\n", j.it.key, j.why)
+		}
+	}
+}
